@@ -371,8 +371,17 @@ def run(ctx, scale=1.0, oracle_only=False):
         rng = ctx.rng('rr/%d' % j)
         rec = c08.random_recipe(rng, big=(j % 6 == 5))
         h = G.History([], {'geo': rec})
-        res.violations += run_phys_history(ctx, h, res, gen=lambda g, i, rng=rng: rr_op(g, rng), nmax=rng.randint(1, 6),
-                                           file_leg=(j % 3 == 0), tag='rr%d' % j)
+        npre = rng.choice([0, 1, 2, 3])     # extra connections carrying nad1/nad2 (fromgeo leaves them None)
+
+        def gen(g, i, rng=rng, npre=npre):
+            if i < npre and len(g.blocklist) >= 2:
+                a, b = rng.sample([x.name for x in g.blocklist], 2)
+                p = c08.random_pay(rng)
+                p[5], p[6] = rng.choice([1, 2, 5]), rng.choice([None, 3, 4])
+                return ['add_connection', a, b, p]
+            return rr_op(g, rng)
+        res.violations += run_phys_history(ctx, h, res, gen=gen, nmax=npre + rng.randint(1, 6),
+                                           file_leg=(j % 3 == 0 and npre == 0), tag='rr%d' % j)
         hists.append(h); facets.append('compositions')
         res.count('atmos-%d' % rec['atmos'])
         res.count('irregular' if rec.get('refine') else 'rectangular')
